@@ -88,6 +88,15 @@ def _xor_instance(p):
         pred = np.zeros((X, Y), dtype=int)
     elif kind == "ones":
         pred = np.ones((X, Y), dtype=int)
+    elif kind == "planted":
+        # a perfect classical strategy (a*, b*) is planted and is unique up to the global sign; the positions listed in `differ` are
+        # answered differently by the second player (an enumeration that skips part of the strategy space misses it)
+        a = rng.choice([1, -1], size=X)
+        b = rng.choice([1, -1], size=Y)
+        for k, pos in enumerate(p.get("differ", [0, 1])):
+            if pos < Y:
+                b[pos] = 1 if k % 2 == 0 else -1
+        pred = (np.outer(a, b) < 0).astype(int)
     else:
         pred = (rng.random((X, Y)) < 0.5).astype(int)
     dt = p.get("dtype", "int")
@@ -856,6 +865,15 @@ def cases(tier, seed):
             for cl in ("xor.npa1_ge", "xor.npa1_le"):
                 add(cl, dict(base), ic, X + Y > 2)
 
+    # ---- many questions: more than 1000 deterministic strategies of the enumerated player (the classical value then takes its process-pool path);
+    # run in the main process of the executor (a pool worker may not start a pool of its own)
+    for shp in [[10, 10], [3, 10], [10, 3]] + ([[11, 11], [12, 4]] if thorough else []):
+        for cl in ("xor.cv_ge", "xor.cv_le"):
+            out.append(dict(clause=cl, params=dict(shape=shp, dist="random", seed=seed + 77), input_class="xor/many-questions/%dx%d" % tuple(shp), nontrivial=True, inline=True))
+    for differ in ([0, 1], [8, 9], [0, 9]):
+        for cl in ("xor.cv_ge", "xor.cv_le"):
+            out.append(dict(clause=cl, params=dict(shape=[10, 10], dist="random", pred="planted", differ=differ, seed=seed + 78), input_class="xor/many-questions/10x10-planted", nontrivial=True, inline=True))
+
     # ---- Bell maximiser, m = 2
     for name in ("chsh", "ch", "tilted", "marginal-only", "chsh-01"):
         par = dict(name=name)
@@ -922,16 +940,22 @@ def prove(tier, seed):
     for x in out["records"]:
         if x["status"] != "discharged":
             x["replay"] = [dict(c, function=x["function"]) for c in gen("quick", seed) if c["clause"] in ("xor.cv_ge", "xor.cv_le", "xor.conv_pred", "xor.ns_value")][:40]
-    return out
+    # E1-prog: the cvxpy program behind XORGame.quantum_value is the dual Tsirelson program and the value returned is (1/2 + opt/4)^reps
+    from props.sdp_prove import prove_xor
+    from vt.pyvc.termproofs import merge
+
+    rep = [dict(c, function="XORGame.quantum_value") for c in gen("quick", seed) if c["clause"] in ("xor.qv_ge", "xor.qv_le") and not c.get("inline")][:60]
+    return merge(out, prove_xor(rep, "c08p", tier))
 
 
 _cases_before_frames_c08 = cases
 LEVEL_TEXT = LEVEL_TEXT + (" Proved (E1-term): XORGame.classical_value / nonsignaling_value are the values of the game's conversion to a general nonlocal game (the statement's "
                            "'identical classical and non-signaling values'); and (E1-array with tabulation loops, all question-set sizes) XORGame.to_nonlocal_game returns NonlocalGame(prob_mat, V, reps=reps) with V[a,b,x,y] = [pred[x,y] == a xor b] "
-                           "(the constructor is an opaque term: the obligation is about the arguments it receives).")
+                           "(the constructor is an opaque term: the obligation is about the arguments it receives). Proved (E1-prog, question counts 2..3 enumerated, reps 1..2, all distributions and predicates): "
+                           "XORGame.quantum_value hands cvxpy the program min sum(u) + sum(v) s.t. [[Diag(u), -D], [-D^T, Diag(v)]] >= 0 with D[x,y] = pi(x,y) (-1)^f(x,y), solves it once and returns (1/2 + optimum/4)^reps.")
 from props.C08_tab import ASSUMED as _TAB_ASSUMED  # noqa: E402
 
-ASSUMPTIONS = list(ASSUMPTIONS) + list(_TAB_ASSUMED)
+ASSUMPTIONS = list(ASSUMPTIONS) + list(_TAB_ASSUMED) + ["E1-prog (program contracts): matrices and solver variables are uninterpreted terms; picos / cvxpy semantics assumed by name (>> Loewner order, block / bmat, diag, sum, trace, SpectralNorm, partial_trace of a variable with its index and dimensions argument); the solver returns the optimum of the program it is handed (certified only on the bounded tier); objectives compared modulo real linear arithmetic"]
 EXPLANATION = LEVEL_TEXT
 ENGINES = ["E1-pyvc"] + [e_ for e_ in globals().get("ENGINES", ["E3-E4-rtc"]) if e_ != "E1-pyvc"]
 
